@@ -113,11 +113,22 @@ package dns
 //@   ensures 0 <= ones && ones <= bits && (bits == 32 || bits == 128) ==> len(ret0) == bits / 8
 //@   pure
 //@   fresh
-//@ extern (net.IP).Mask
+//@ func net.allFF
+//@   loop 1 invariant rangeindex >= 0-1
+//@   pure
+//@ extern internal/bytealg.Equal
+//@   pure
+//@ func (net.IP).Mask
 //@   ensures len(mask) == len(ip) ==> len(ret0) == len(ip)
 //@   pure
 //@   fresh
-//@ extern (net.IP).To4
+//@ func net.isZeros
+//@   ensures ret0 == (forall k in 0..len(p) :: p[k] == 0)
+//@   loop 1 invariant 0 <= i && i <= len(p) && (forall k in 0..i :: p[k] == 0)
+//@   pure
+//@ func (net.IP).To4
+//@   ensures mapped: len(ip) == 16 ==> ((ret0 != nil) == ((forall k in 0..10 :: ip[k] == 0) && ip[10] == 255 && ip[11] == 255)) && (ret0 != nil ==> sliceoff(ret0) == sliceoff(ip) + 12)
+//@   ensures other: len(ip) != 4 && len(ip) != 16 ==> ret0 == nil
 //@   ensures ret0 == nil || len(ret0) == 4
 //@   ensures four: len(ip) == 4 ==> ret0 != nil && sliceoff(ret0) == sliceoff(ip)
 //@   ensures ret0 == nil || ref(ret0) == ref(ip)
